@@ -16,6 +16,7 @@ pub enum Action {
     ShortKill(u64), // shorten to k bytes, let that complete, then SIGKILL (torn write)
     ShortThenErr(u64, i32), // first call short, the retry of the remainder fails with errno
     ErrnoPersist(i32), // this call and every later call of the same kind by this client fail (the disk stays full / broken)
+    TruncBefore(u64), // somebody else truncates the file this call names to k bytes just before the call runs
 }
 
 impl Action {
@@ -29,6 +30,7 @@ impl Action {
             Action::ShortKill(k) => format!("torn({k})+kill"),
             Action::ShortThenErr(k, e) => format!("short({k})+{}", errno_name(*e)),
             Action::ErrnoPersist(e) => format!("errno({})-from-here-on", errno_name(*e)),
+            Action::TruncBefore(k) => format!("file-truncated-to({k})-under-the-call"),
         }
     }
     pub fn to_json(&self) -> serde_json::Value {
@@ -42,6 +44,7 @@ impl Action {
             Action::ShortKill(k) => json!({"a":"short_kill","k":k}),
             Action::ShortThenErr(k, e) => json!({"a":"short_then_err","k":k,"e":e}),
             Action::ErrnoPersist(e) => json!({"a":"errno_persist","e":e}),
+            Action::TruncBefore(k) => json!({"a":"trunc_before","k":k}),
         }
     }
     pub fn from_json(v: &serde_json::Value) -> Action {
@@ -55,6 +58,7 @@ impl Action {
             "short_kill" => Action::ShortKill(k),
             "short_then_err" => Action::ShortThenErr(k, e),
             "errno_persist" => Action::ErrnoPersist(e),
+            "trunc_before" => Action::TruncBefore(k),
             _ => Action::Exec,
         }
     }
@@ -479,6 +483,14 @@ impl Tracer {
                 }
                 self.kill_client(c);
                 return;
+            }
+            Action::TruncBefore(k) => {
+                // the environment's doing, from outside the client: then the call runs as it is
+                if let Some(p) = &sys.path {
+                    if let Ok(f) = std::fs::OpenOptions::new().write(true).open(crate::penc::pdec(p)) {
+                        let _ = f.set_len(k);
+                    }
+                }
             }
             Action::Errno(e) | Action::ErrnoPersist(e) => {
                 if let Some(mut regs) = getregs(tid) {
